@@ -602,7 +602,11 @@ class SimRLock:
         SimRLock._n += 1
         self.owner = None
         self.count = 0
-        self.label = None
+        try:  # where rich created it, e.g. "console.py:487" (for the wait-for graph of a deadlock)
+            f = sys._getframe(1)
+            self.label = "%s:%d" % (f.f_code.co_filename.rsplit("/", 1)[-1], f.f_lineno)
+        except Exception:
+            self.label = None
 
     def _owner_name(self):
         s = CURRENT
